@@ -372,10 +372,10 @@ def run(ctx):
     step = 8 if quick else 4
     cases = [{"kind": "systematic", "lo": i, "hi": min(n, i + step), "e2e": 4 if quick else 10, "e2e_p": 0.01}
              for i in range(0, n, step)]
-    for i in range(16 if quick else 320):
+    for i in range(16 if quick else 240):
         cases.append({"kind": "random", "idx": i, "n": 150 if quick else 250, "max_depth": 3,
                       "e2e": 5 if quick else 12, "e2e_p": 0.05})
-    ctx.record_all(ctx.pmap("vp.props.c21:batch", cases, nproc=8 if quick else 16,
+    ctx.record_all(ctx.pmap("vp.props.c21:batch", cases, nproc=8 if quick else 16, env={"PYTHONHASHSEED": "0"},
                             timeout=400 if quick else 3000))
     ctx.extra["systematic_depth1_types"] = n
     ctx.extra["systematic_pairs_enumerated_completely"] = n * n
